@@ -18,6 +18,11 @@
    Unlock invoked (r.l == nil -> ErrLockNotHeld)      RExit i
    Release: Lua compare-and-delete(key, token)        RRelease i
    the clock advances d ms; keys past their TTL go    RTick d
+   an iteration of Obtain whose SET NX reply is lost   RTryLost i
+     (the deadline fires inside the call): the call
+     fails although the server may have set the key,
+     which then stays until its TTL (nobody can
+     release it)
 
    The context returned by lock() is context.TODO(): no step of the model ever
    changes [r_ctx].
@@ -55,7 +60,8 @@ Inductive rlabel :=
 | RRet (i : nat)
 | RExit (i : nat)
 | RRelease (i : nat)
-| RTick (d : Z).
+| RTick (d : Z)
+| RTryLost (i : nat).
 
 Definition ueqb (_ _ : unit) : bool := true.
 
@@ -124,6 +130,20 @@ Definition rstep (s : rsys) (l : rlabel) : option rsys :=
           match r_pc c with
           | RHeld => if r_in c then rwith s i kv (rset_pc c RReleasing) else None
           | RFailed _ => rwith s i kv (rset_pc c (RDone false))
+          | _ => None
+          end
+      | None => None
+      end
+  | RTryLost i =>
+      match nth_error (rs_cs s) i with
+      | Some c =>
+          match r_pc c with
+          | RCalled _ | RRetrying =>
+              let '(okb, kv') := r_setnx ueqb kv tt (r_tok c) (Some (r_ttl c)) in
+              rwith s i kv' (mkR (RFailed RDeadline) (r_tok c) (r_ttl c) (r_dead c)
+                                 (if okb then (if Z.ltb 0 (r_ttl c) then Some (r_now kv + r_ttl c) else None)
+                                  else r_until c)
+                                 false (r_ctx c))
           | _ => None
           end
       | None => None
